@@ -74,6 +74,69 @@ def nested_empty(kind, el):
     return ne(kind, el)
 
 
+
+DEPTH = {"multipoint": 1, "line": 1, "ring": 1, "multiline": 2, "polygon": 2, "multipolygon": 3}
+
+
+def raw_view(cur):
+    """the raw Arrow view behind a list-backed array: offset, length, whole offsets buffers, validity bits"""
+    la = cur.listarray
+    bufs = la.buffers()
+    depth = (len(bufs) - 2) // 2
+    offs = [np.asarray(bufs[1 + 2 * k]).view(np.uint32).tolist() if bufs[1 + 2 * k] is not None else [] for k in range(depth)]
+    nvals = 0 if bufs[-1] is None else len(np.asarray(bufs[-1]).view(cur.numpy_dtype))
+    top = la.offset + len(la)
+    if bufs[0] is None:
+        valid = [1] * top
+    else:
+        bits = np.unpackbits(np.frombuffer(bufs[0], dtype=np.uint8), bitorder="little")
+        valid = [int(b) for b in bits[:top]]
+    return depth, la.offset, len(la), offs, nvals, valid
+
+
+def arrow_layer(chk, kind, cur, rep):
+    """tie of the Lean model `Arrow` (views of shared buffers) to the real arrays: the model, fed the raw buffers of the derived
+    array (values replaced by their positions), must reproduce the elements and every helper the kernels read"""
+    if kind == "point":
+        buf = cur.data.buffers()[1]
+        vals = np.asarray(buf).view(cur.numpy_dtype) if buf is not None else np.array([], dtype=cur.numpy_dtype)
+        off, n = cur.data.offset, len(cur)
+        line = f"arrowfixed 2 {off} {n} {tok(list(range(len(vals))))}"
+        out = untok(drive([line])[0])
+        if not isinstance(out, list):
+            chk.tie_broken(f"correspondence C16 arrow layer: model rejects {line[:200]}"); return True
+        els_pos, flat_pos = out
+        back = lambda ps: [fnum(vals[p]) for p in ps]  # noqa: E731
+        isna = [bool(x) for x in cur.isna()]
+        model = dict(elements=[None if isna[i] else back(e) for i, e in enumerate(els_pos)], flat_values=back(flat_pos))
+        impl = dict(elements=canon_el(geo.to_elements(cur)), flat_values=[fnum(x) for x in np.asarray(cur.flat_values)])
+    else:
+        depth, off, n, offs, nvals, valid = raw_view(cur)
+        vals = np.asarray(cur.buffer_values)
+        line = f"arrow {depth} {off} {n} {tok(offs)} {tok(list(range(nvals)))} {tok(valid)}"
+        out = untok(drive([line])[0])
+        if not isinstance(out, list):
+            chk.tie_broken(f"correspondence C16 arrow layer: model rejects {line[:200]}"); return True
+        els_pos, b0, outer, flat_pos, inner = out
+
+        def back(x):
+            if x is None:
+                return None
+            if isinstance(x, list) and (not x or isinstance(x[0], list)) and not (x == [] and False):
+                return [back(y) for y in x] if (x and isinstance(x[0], list)) else []
+            return [fnum(vals[p]) for p in x]
+        model = dict(elements=[back(e) for e in els_pos], buffer_offsets0=b0, outer=outer, flat_values=[fnum(vals[p]) for p in flat_pos], inner=inner)
+        impl = dict(elements=canon_el(geo.to_elements(cur)), buffer_offsets0=[int(x) for x in cur.buffer_offsets[0]],
+                    outer=[int(x) for x in cur.buffer_outer_offsets], flat_values=[fnum(x) for x in np.asarray(cur.flat_values)],
+                    inner=[int(x) for x in cur.buffer_inner_offsets])
+    chk.count("arrow-layer")
+    for name in impl:
+        if impl[name] != model[name]:
+            chk.tie_broken("correspondence C16 arrow layer (Model/Arrow.lean vs _ListArrayBufferMixin / GeometryFixedArray): "
+                           + json.dumps(dict(rep, quantity=name, impl=impl[name], model=model[name]), default=str)[:1500])
+            return False
+    return True
+
 def step(chk, kind, arr, n, r):
     """choose one derivation step; returns (new array | None on expected error, idx list, description)"""
     ops = ["slice", "slice", "stepslice", "mask", "take", "takefill", "concat", "copy", "pickle", "series_iloc", "frame_mask",
@@ -206,6 +269,7 @@ def run_sequence(chk, kind, st, els, r, length):
             return
         if str(cur.dtype) != str(arr.dtype):
             chk.violation(f"select/{kind}/dtype-changed", dict(rep, got=str(cur.dtype), exp=str(arr.dtype)))
+        arrow_layer(chk, kind, cur, rep)
         got_els = canon_el(geo.to_elements(cur))
         if got_els != canon_el(exp_els):
             chk.violation(f"select/{kind}/elements-differ/{desc.split('(')[0].split('[')[0]}", dict(rep, impl=got_els, expected=canon_el(exp_els)))
